@@ -545,7 +545,22 @@ def worker(variant, ops_path, trace_path, viol_path, start, status_path):
                 os.pwrite(sfd, ("%d %s %d" % (idx, hid, step)).ljust(60).encode(), 0)
             w = World((mod, pkg), h[0], h[1:], variant)
             signal.alarm(HISTORY_TIMEOUT)      # watchdog: SIGALRM kills the worker, the parent reports non-termination
-            w.run(status)
+            try:
+                w.run(status)
+            except Exception as e:
+                # the harness met something its own bookkeeping says cannot exist (e.g. a key slot
+                # holding a foreign object after an over-release): the heap may be corrupt, so
+                # report, and let the parent continue with a fresh process
+                import traceback
+                tb = traceback.format_exc().strip().splitlines()
+                w.viol.append("VIOL C13 %s %d inconsistent state seen by the harness: %s: %s [%s]" %
+                              (hid, w.step, type(e).__name__, str(e)[:120], tb[-2].strip()[:120] if len(tb) > 1 else ""))
+                w.out.append("X %s %d inconsistent state" % (hid, w.step))
+                tf.write("\n".join(w.out) + "\n")
+                vf.write("\n".join(w.viol) + "\n")
+                tf.flush()
+                vf.flush()
+                os._exit(4)
             signal.alarm(0)
             tf.write("\n".join(w.out) + "\n")
             tf.flush()
@@ -595,6 +610,9 @@ def run_pass(variant, ops_path, trace_path, viol_path, oracle_filter=None):
             # the worker died before it started a history: a harness/build problem
             sys.stderr.write("worker failed to start (variant %s):\n%s\n" % (variant, err[-2000:]))
             return 2
+        if rc == 4:          # reported by the worker itself
+            start = idx + 1
+            continue
         if rc == 3 or ("Traceback (most recent call last)" in err and "AddressSanitizer" not in err and rc == 1):
             sys.stderr.write("harness error in history %s step %s (variant %s):\n%s\n" % (hid, step, variant, err[-3000:]))
             return 2
